@@ -109,7 +109,7 @@ func (g G) drawIDP(o worldOpts) IDPCfg {
 	if o.issuerVariety {
 		switch g.weighted("idp.issuerKind", 40, 20, 20, 10, 10) {
 		case 0:
-			c.Issuer = g.pick("idp.static", "https://idp.example", "https://idp.example/saml", "https://idp.example/saml/", "https://idp.example:8443/a/b", "https://idp.example/")
+			c.Issuer = g.pick("idp.static", "https://idp.example", "https://idp.example/saml", "https://idp.example/saml/", "https://idp.example:8443/a/b", "https://idp.example/", "https://idp--staging.example/saml", "https://xn--idp-qla.example")
 		case 1:
 			c.IssuerKind, c.Issuer = "host", g.pick("idp.hostpath", "", "/saml", "saml", "/saml/v2/")
 		case 2:
@@ -146,6 +146,10 @@ func (g G) drawIDP(o worldOpts) IDPCfg {
 		c.Callback, c.Cert = drawEP("idp.ep.cb", "cb"), drawEP("idp.ep.cert", "crt")
 		if g.chance("idp.ep.md", 25) {
 			c.Metadata = EndpointCfg{Set: true, Path: g.pick("idp.ep.mdpath", "/md", "metadata.xml", "/saml/metadata")}
+			if g.chance("idp.ep.mdurl", 40) {
+				// the metadata document is published under an external URL (the entityID is then that URL for every request host)
+				c.Metadata.URL = g.pick("idp.ep.mdurlv", "https://login.example/federation", "https://gateway.example") + "/" + strings.TrimPrefix(c.Metadata.Path, "/")
+			}
 		}
 	}
 	if o.signReqVariety {
@@ -233,6 +237,9 @@ func (g G) drawSP(i int, o worldOpts, hardURL bool) SPCfg {
 		n := g.intn(fmt.Sprintf("sp%d.nslo", i), 4)
 		for k := 0; k < n; k++ {
 			c.SLO = append(c.SLO, SLOCfg{Binding: g.pick(fmt.Sprintf("sp%d.slo%d.b", i, k), BindPost, BindRedirect), URL: fmt.Sprintf("%s/slo%d%s", base, k, q)})
+		}
+		if n >= 2 && g.chance(fmt.Sprintf("sp%d.slo0empty", i), 12) {
+			c.SLO[0].URL = "" // the first registered entry carries no location (Location=""): there is nowhere to post to
 		}
 	} else {
 		c.SLO = []SLOCfg{{Binding: BindPost, URL: base + "/slo" + q}}
@@ -334,6 +341,8 @@ func (g G) drawWorld(o worldOpts) WorldCfg {
 	w.Neighbours = g.chance("neighbours", 30)
 	w.CtxAware = g.chance("ctxAware", 35)
 	w.TenantKeys = g.chance("tenantKeys", 35)
+	w.TypedNil = g.chance("typedNil", 30)
+	w.OwnSlices = g.chance("ownSlices", 40)
 	return w
 }
 
@@ -365,6 +374,9 @@ func (g G) drawStyle(label string) Style {
 		s.B64Lines = g.rng(label+".b64LinesK", 1, 2)
 	}
 	s.BodyAndURL = g.chance(label+".bodyAndURL", 15)
+	if g.chance(label+".hoistNS", 30) {
+		s.HoistNS = g.rng(label+".hoistNSK", 1, 2)
+	}
 	return s
 }
 
